@@ -130,6 +130,7 @@ func (wk *Worker) close() {
 func newInterp(w *World, tt *TermTable, ex *Explorer, job *Job, funcs map[string]int) *Interp {
 	in := &Interp{w: w, tt: tt, ex: ex, globals: map[*ssa.Global]Ptr{}, funcsRun: funcs,
 		reach: map[string]bool{}, builders: map[*Val]*[]Piece{}, ioErrs: map[string]*ErrV{}}
+	in.noIfConv = os.Getenv("VERIF_NO_IFCONV") != ""
 	in.stepBudget = job.StepBudget
 	if in.stepBudget == 0 {
 		in.stepBudget = 200000
